@@ -34,6 +34,52 @@ call order shows as a difference.  (2) PROCESS ORDER: a slice of the oracle stre
 Python subprocesses, each with another seeded order (failing calls and leap cases first in one
 of them); a failure is reported as op `process_order` with the (shrunk) order as replay.
 (3) float hours at arbitrary resolution (`hoy_float`), zero / boundary / leap-only strata.
+
+Round 4 additions (classes e-j of ROUND4_BRIEF):
+  (e) sibling classes / override gaps: oracle op `siblings` - DateTime, its .date and .time, every
+      sibling constructor (constructor, from_moy, from_hoy, from_doy+from_mod, from_date_and_time,
+      from_first_hour+add, from_last_hour-sub, midnight+add_hour), str/repr/ToString/to_simple_string
+      and trivial USER SUBCLASSES of the three classes must describe the same instant; the Date and
+      Time serial forms are compared with the model too (date_to_dict, date_from_dict, time_from_dict,
+      time_from_array).  Theorem C08_siblings.
+  (f) aliasing / one-shot iterables: oracle op `alias` - two objects (both year kinds, either order),
+      each result of to_dict / to_array / __reduce_ex__ / str kept, the other object asked, the second
+      result edited in place, the first asked again; from_dict / from_array leave their argument alone
+      and accept every mapping type / insertion order / container shape (`_SHAPES`, also in the
+      correspondence of from_array, date_from_array, time_from_array).
+  (g) conventions between anchored functions: from_hoy->from_moy (h*60), add_hour->add_minute (h*60),
+      sub_*->add_* (negation), .date/.time -> constructors (argument order), to_array<->from_array
+      (layout), __reduce_ex__ -> __new__ (argument order), from_date_and_time (leap from date.year),
+      __str__ <-> from_*_string (format), from_mod (mod/60.0): each composite is checked against the
+      stdlib calendar in `siblings`/`shape`/`serial` on inputs with month != day, hour != minute, leap.
+  (h) numeric edges: offsets that are not whole minutes / hours in `add_sub` (either operation first,
+      sums within one minute, exact inverse), history step `pf` (fractional add/sub pair inside a
+      history), correspondence add_minute_f / sub_minute_f (model `addMinuteQ`: int() toward zero);
+      fractional constructor arguments `ctor_float` + correspondence calc_hm / make_f / time_make_f
+      (both branches of _calculate_hour_and_minute, ties, 1e-12, 5e-324, 1e15); the far end of the
+      year reached by accumulated float steps of 1/timestep for all 12 timesteps; from_hoy / add_minute
+      / add_hour beyond the year are refused (`reject` what=hoy/add/add_hour), magnitudes up to 1e16.
+      Theorems C08_add_sub_fraction, C08_sub_add_fraction, C08_add_sub_hour_fraction,
+      C08_history_add_sub_hour_fraction, C08_calc_hm_branches, C08_calc_hm_whole.
+  (i) input shapes: oracle op `shape` - whole floats where integers are expected and the reverse,
+      keyword arguments, leap flag as bool / 0 / 1, from_dict with the defaulted keys omitted, arrays
+      through JSON, text with one- and two-digit fields mixed for all three from_*_string readers.
+      (dt.py has no text-for-number setters; `int('12')`-style acceptance by from_moy / from_doy is an
+      accident of `int()` and is NOT demanded.)
+  (j) branches of the anchored functions (read from dt.py f00545e):
+        DateTime.__new__ / Date.__new__ / Time.__new__ : ok | ValueError re-raised      [reject make/date, history mk]
+        from_dict (x3): each key present | absent (default)                            [from_dict corr, shape]
+        from_moy: normal | leap table; loop breaks at month 1..12 | falls through
+                  (UnboundLocalError->ValueError); negative band -1440<moy<0 (quirk)    [from_moy corr, reject, C08_fromMoy_branch]
+        from_doy: normal | leap table; breaks at month 1..12 | falls through; day == 0
+                  (month -= 1; month 0 -> table[-1]) | plain; negative day             [from_doy corr -3..369, C08_fromDoy_branches(+_outside)]
+        from_date_time_string / from_date_string / from_time_string: strptime | `except
+                  AttributeError` fallback - UNREACHABLE on CPython 3 (strptime exists)
+        from_date_and_time: leap | normal;  to_array / to_dict (DateTime, Date): leap | normal
+        _calculate_hour_and_minute: minute == 60 (carry) | else                        [ctor_float, calc_hm corr, C08_calc_hm_branches]
+      `_branch_coverage` traces (sys.settrace) a slice of the stream on the real module and lists every
+      line of dt.py with code that no case executes (evidence `branch:unreached:line-N`; on f00545e
+      exactly the 11 lines of the three unreachable fallbacks).
 """
 import calendar
 import copy
@@ -53,15 +99,20 @@ from harness.core import compare_batch, err_name, run_oracle_cases
 
 PROP = 'C08'
 PROOF_MODULES = ['Ladybug.Props.C08']
-GREP_MODULES = ['Ladybug.Py', 'Ladybug.Model.Cal', 'Ladybug.Model.C08Hist', 'Ladybug.Gen.DtTables',
-                'Ladybug.Proofs.CalLemmas', 'Ladybug.Proofs.C08Hist', 'Ladybug.Drv.C08', 'Ladybug.DrvCore']
+GREP_MODULES = ['Ladybug.Py', 'Ladybug.Model.Cal', 'Ladybug.Model.C08Hist', 'Ladybug.Model.C08Frac',
+                'Ladybug.Gen.DtTables', 'Ladybug.Proofs.CalLemmas', 'Ladybug.Proofs.C08Hist',
+                'Ladybug.Proofs.C08R4', 'Ladybug.Drv.C08', 'Ladybug.DrvCore']
 RULE = ('correspondence: month-boundary minutes +-2, random minutes, all day numbers -2..368, all '
         '(hour, minute) normalisations, offsets, serial forms, float minutes, for both leap flags (thorough: '
         'every minute of both years); HISTORIES: op lists on one date-time variable (constructors of both '
         'year kinds, offsets, refused calls, leap-flag switches, serial trips, repeated reads, twin triples) '
         'run on a new module instance and on the long-lived module, compared step by step with the Lean '
         'state machine; oracle: inverse laws / ordering / serial round trips / float hours at arbitrary '
-        'resolution / histories against a stdlib reference on the real classes; PROCESS ORDER: a slice of '
+        'resolution / histories against a stdlib reference on the real classes; round 4: fractional offsets '
+        '(add first / sub first), fractional constructor arguments (carry branch, ties), sibling classes and '
+        'user subclasses, aliasing of returned containers, argument container / mapping types, number and text '
+        'shapes, accumulated float steps to the far end of the year for all 12 timesteps, traced line coverage '
+        'of dt.py; PROCESS ORDER: a slice of '
         'the oracle stream in 3-4 fresh interpreters in different seeded orders (failing + leap cases first '
         'in one); a case is non-trivial when the implementation returns a value (not a rejection); '
         'distinct = distinct (op, input)')
@@ -73,7 +124,12 @@ TRUSTED_BASE = [
     '(theorem C08_str_roundtrip is at token level)',
     'absence of hidden state in dt.py (per object / per module) is what the history model states; it is '
     'tied by the step-by-step history correspondence and the fresh-interpreter order runs of this run only',
-    'constructor calls with fractional hour/minute arguments (DateTime(1, 1, 23, 59.6)) are not modelled',
+    'fractional hour/minute constructor arguments: the two IEEE operations hour + minute / 60.0 and '
+    '(float_hour - hour) * 60 are formed by the driver in double arithmetic (Lean Float = C double), the '
+    'model takes their exact values (Model/C08Frac.lean)',
+    'container / mapping type of from_array / from_dict arguments: the model takes lists; the real code is '
+    'fed the same numbers as tuple, list, generator, iterator, map, one-shot iterable, dict view and as '
+    'dict / OrderedDict / mappingproxy / ChainMap in several insertion orders (compared only)',
 ]
 ASSUMPTIONS = ['CPython datetime arithmetic is the reference calendar for the oracle']
 
@@ -224,6 +280,10 @@ def _apply_op(mod, cur, op):
         return DT.from_date_and_time(cur.date, T.from_mod(op[1]))
     if t == 'via':
         return _via(mod, cur, op[1])
+    if t == 'pf':
+        # one step = add then subtract (or subtract then add) the same, possibly fractional, offset
+        f1, f2 = ('add_', 'sub_') if op[2] == 'add' else ('sub_', 'add_')
+        return getattr(getattr(cur, f1 + op[1])(op[3]), f2 + op[1])(op[3])
     if t == 'rd':
         # the same question asked twice, in two different orders: reads must be pure
         names = list(_READS)
@@ -342,6 +402,12 @@ def _ref_step(ref, op):
         return 'out', ref
     if t in ('via', 'rd'):
         return 'in', ref
+    if t == 'pf':
+        exact = Fraction(op[3]) * (60 if op[1] == 'hour' else 1)
+        mid = moy + exact if op[2] == 'add' else moy - exact
+        if 0 <= mid <= _year_minutes(leap) - 1:
+            return 'in', ref
+        return 'out', ref
     raise ValueError('unknown history op %r' % (op,))
 
 
@@ -380,7 +446,7 @@ def _check_history(mod, ops):
                     'after_refused': refused}
         if abs(res.hoy - new[1] / 60.0) > 1e-9:
             return {'required': new[1] / 60.0, 'observed': res.hoy, 'sig': dict(sig, what='hoy'), 'at': i}
-        if op[0] in ('via', 'rd') and not (res == cur and hash(res) == hash(cur)):
+        if op[0] in ('via', 'rd', 'pf') and not (res == cur and hash(res) == hash(cur)):
             return {'required': 'equal to %s' % (cur,), 'observed': str(res), 'sig': dict(sig, what='equal'),
                     'at': i}
         cur, ref = res, new
@@ -537,6 +603,13 @@ def _gen_history(rng, length, wild=False, count=None):
             if not 0 <= ref[1] + h * 60 < nn:
                 h = -h
             op = [rng.choice(['ah', 'sh']), float(h)]
+        elif r < 0.835 and not wild:
+            unit = rng.choice(['minute', 'hour'])
+            k = _frac_offsets(rng, ref[1], _year_minutes(leap))
+            if unit == 'hour':
+                k = rng.choice([k / 60.0, 0.01, -0.01, 1.51, -1.51, 1 / 3.0, 0.1, -2.05, 0.004])
+            op = ['pf', unit, rng.choice(['add', 'sub']), k]
+            cnt('fractional-add-sub-pair')
         elif r < 0.87:
             op = ['sl', int(not leap) if rng.random() < 0.7 else int(leap)]
             cnt('switch-leap-flag')
@@ -683,6 +756,169 @@ def _process_orders(ctx, pool):
                      f['required'], f['observed'], sig)
 
 
+# ---------------------------------------------------------------------------------------------
+# round 4: argument shapes, aliasing, sibling classes, fractional arguments, branches
+
+
+def _one_shot(seq):
+    """An iterable that can be walked exactly once and has no len()."""
+    return (x for x in list(seq))
+
+
+class _OnceOnly(object):
+    """Iterable whose second iteration yields nothing (like a file or a zip object)."""
+
+    def __init__(self, seq):
+        self._it = iter(list(seq))
+
+    def __iter__(self):
+        return self._it
+
+
+_SHAPES = ('tuple', 'list', 'generator', 'iter', 'map', 'once', 'reversed', 'dict-keys')
+
+
+def _in_shape(shape, seq):
+    """The same numbers in another container type (every one is a legal argument of `cls(*array)`)."""
+    seq = list(seq)
+    if shape == 'tuple':
+        return tuple(seq)
+    if shape == 'list':
+        return list(seq)
+    if shape == 'generator':
+        return _one_shot(seq)
+    if shape == 'iter':
+        return iter(seq)
+    if shape == 'map':
+        return map(int, seq)
+    if shape == 'once':
+        return _OnceOnly(seq)
+    if shape == 'reversed':
+        return reversed(seq[::-1])
+    if shape == 'dict-keys':
+        if len(set(seq)) != len(seq):
+            return tuple(seq)               # keys would collapse: plain tuple instead
+        return dict.fromkeys(seq).keys()
+    raise ValueError(shape)
+
+
+def _frac_hm_cases(rng, count, cnt=None):
+    """(hour, minute) float pairs for the constructors: every branch of _calculate_hour_and_minute."""
+    out = []
+
+    def c(k):
+        if cnt is not None:
+            cnt('frac:' + k)
+
+    for _ in range(count):
+        r = rng.random()
+        h = rng.randrange(24)
+        m = rng.randrange(60)
+        if r < 0.18:            # minute rounds up to 60 -> the carry branch
+            out.append((float(h), 59.5 + rng.choice([1e-9, 0.001, 0.1, 0.25, 0.4, 0.4999])))
+            c('carry-branch-minute')
+        elif r < 0.30:          # float hour whose minute part rounds to 60
+            out.append((h + 1 - rng.choice([1e-9, 1e-6, 0.0001, 0.001, 0.008]), 0.0))
+            c('carry-branch-hour')
+        elif r < 0.45:          # quarter / tenth hours, the usual way fractional hours are written
+            out.append((h + rng.choice([0.25, 0.5, 0.75, 0.1, 0.2, 0.9, 1 / 3.0, 2 / 3.0]), 0.0))
+            c('hour-fraction')
+        elif r < 0.60:
+            out.append((rng.uniform(0, 24), 0.0))
+            c('hour-uniform')
+        elif r < 0.75:
+            out.append((float(h), m + rng.uniform(-0.499, 0.499) if m else rng.uniform(0, 0.499)))
+            c('minute-fraction')
+        elif r < 0.85:          # either side of the half-minute tie
+            out.append((float(h), m + 0.5 + rng.choice([-1, 1]) * rng.choice([1e-4, 1e-3, 0.01])))
+            c('minute-near-tie')
+        elif r < 0.90:
+            out.append((float(h), m + 0.5))
+            c('minute-exact-tie')
+        elif r < 0.95:
+            out.append(rng.choice([(0.0, 1e-12), (1e-12, 0.0), (0.0, 0.0), (23.0, 59.0), (23.999, 0.0),
+                                   (0.008, 0.0), (0.0084, 0.0), (5e-324, 0.0)]))
+            c('tiny-or-edge')
+        else:                   # both fractional
+            out.append((h + rng.choice([0.25, 0.5]), rng.choice([0.5, 7.25, 14.75, 29.9])))
+            c('hour-and-minute-fraction')
+    return out
+
+
+def _frac_offsets(rng, moy, n):
+    """A fractional offset (in minutes) whose exact sum stays clear of both ends of the year."""
+    lo, hi = -(moy - 2), (n - 3 - moy)
+    whole = rng.randrange(lo, hi + 1) if lo <= hi else 0
+    if rng.random() < 0.3:
+        whole = rng.choice([0, 1, -1, 59, -59, 60, -60, 90, -90, 1439, -1440])
+        if not lo <= whole <= hi:
+            whole = 0
+    frac = rng.choice([0.5, 0.25, 0.75, 0.6, 0.01, 0.99, 1e-9, 1 - 1e-9, rng.random()])
+    k = whole + (frac if whole >= 0 else -frac)
+    if whole == 0 and rng.random() < 0.5:
+        k = -frac
+    return k
+
+
+_DT_LINES = {}
+
+
+def _dt_executable_lines(path):
+    """Line numbers of dt.py that carry code (from the compiled code objects)."""
+    if path not in _DT_LINES:
+        with open(path, encoding='utf-8') as f:
+            top = compile(f.read(), path, 'exec')
+        lines = set()
+        stack = [top]
+        while stack:
+            co = stack.pop()
+            if co is not top:
+                for _, _, ln in co.co_lines():
+                    if ln is not None and ln != co.co_firstlineno:
+                        lines.add(ln)
+            for k in co.co_consts:
+                if isinstance(k, types.CodeType):
+                    stack.append(k)
+        _DT_LINES[path] = lines
+    return _DT_LINES[path]
+
+
+def _branch_coverage(ctx, pool):
+    """Which lines of dt.py the generated cases execute (sys.settrace on a slice of the stream):
+    every branch of the anchored functions must be reached by some case; the lines that no case
+    reaches are listed in the evidence (`branch:unreached:<line>`)."""
+    import ladybug.dt as real
+    path = real.__file__
+    if path.endswith('.pyc'):
+        path = path[:-1]
+    want = _dt_executable_lines(path)
+    seen = set()
+
+    def tracer(frame, event, arg):
+        if frame.f_code.co_filename != path:
+            return None
+        if event == 'line':
+            seen.add(frame.f_lineno)
+        return tracer
+
+    old = sys.gettrace()
+    sys.settrace(tracer)
+    try:
+        for op, inp in pool:
+            try:
+                check_case(op, inp)
+            except Exception:
+                pass
+    finally:
+        sys.settrace(old)
+    missed = sorted(want - seen)
+    ctx.count('branch:lines-with-code', len(want))
+    ctx.count('branch:lines-reached', len(want & seen))
+    for ln in missed[:40]:
+        ctx.count('branch:unreached:line-%d' % ln)
+    return missed
+
+
 def correspondence(ctx):
     from ladybug.dt import DateTime, Date, Time
     rng = ctx.rng
@@ -755,6 +991,7 @@ def correspondence(ctx):
             k = rng.randrange(-2 * n, 2 * n)
         cases.append((d.leap_year, d.month, d.day, d.hour, d.minute, k))
     fmt = '%s %s %d %d %d %d %d'
+    cases_off = cases
     compare_batch(ctx, 'add_minute', cases, lambda c: fmt % (('add_minute', _b(c[0])) + tuple(c[1:])),
                   lambda c: _show_dt(DateTime(c[1], c[2], c[3], c[4], c[0]).add_minute(c[5])))
     compare_batch(ctx, 'sub_minute', cases, lambda c: fmt % (('sub_minute', _b(c[0])) + tuple(c[1:])),
@@ -837,6 +1074,82 @@ def correspondence(ctx):
     compare_batch(ctx, 'from_moy_f', cases, lambda c: 'from_moy_f %s %s' % (_b(c[0]), _fbits(c[1])),
                   lambda c: _show_dt(DateTime.from_moy(c[1], c[0])), key=lambda c: (c[0], repr(c[1])))
 
+    # --- round 4: fractional constructor arguments: both branches of _calculate_hour_and_minute
+    fr = _frac_hm_cases(rng, ctx.n(3000, 60000), ctx.count)
+    fr += [(float(h), m + f) for h in (0, 11, 22, 23) for m in (0, 29, 58, 59) for f in (0.0, 0.25, 0.5, 0.75)]
+    fr += [(h + q, 0.0) for h in range(25) for q in (0.0, 0.25, 0.5, 0.75, 0.99, 0.9999, 0.99999999)]
+    fr += [(-0.5, 0.0), (0.0, -1.0), (-1.0, 30.0), (24.0, 0.0), (23.0, 60.0), (1e15, 0.0), (100.25, 0.0)]
+    compare_batch(ctx, 'calc_hm', [h + m / 60.0 for h, m in fr], lambda c: 'calc_hm ' + _fbits(c),
+                  lambda c: 'ok %d %d' % Time._calculate_hour_and_minute(c), key=repr)
+    mf = []
+    for h, m in fr:
+        leap = rng.random() < 0.5
+        mo, da = rng.choice([(1, 1), (2, 28), (2, 29), (3, 1), (6, 21), (12, 31), (rng.randrange(1, 13), rng.randrange(1, 29))])
+        mf.append((leap, mo, da, h, m))
+    compare_batch(ctx, 'make_f', mf,
+                  lambda c: 'make_f %s %d %d %s %s' % (_b(c[0]), c[1], c[2], _fbits(c[3]), _fbits(c[4])),
+                  lambda c: _show_dt(DateTime(c[1], c[2], c[3], c[4], c[0])), key=repr)
+    compare_batch(ctx, 'time_make_f', fr, lambda c: 'time_make_f %s %s' % (_fbits(c[0]), _fbits(c[1])),
+                  lambda c: _show_t(Time(c[0], c[1])), key=repr)
+
+    # --- round 4: minute offsets that are not whole numbers (`int()` truncates toward zero)
+    fo = []
+    for c in cases_off[:len(cases_off) // 2]:
+        n = _year_minutes(c[0])
+        m0 = _moy_of(c[0], c[1], c[2], c[3], c[4])
+        k = _frac_offsets(rng, m0, n) if rng.random() < 0.8 else rng.choice(
+            [-m0 - 0.5, -m0 - 0.999, n - m0 - 0.5, n - m0 - 1 + 0.999, -m0 - 1.0, float(n - m0), 0.5, -0.5, 1e-12, -1e-12])
+        fo.append(c[:5] + (float(k),))
+    compare_batch(ctx, 'add_minute_f', fo,
+                  lambda c: hfmt % (('add_minute_f', _b(c[0])) + tuple(c[1:5]) + (_fbits(c[5]),)),
+                  lambda c: _show_dt(DateTime(c[1], c[2], c[3], c[4], c[0]).add_minute(c[5])),
+                  key=lambda c: (c[:5], repr(c[5])))
+    compare_batch(ctx, 'sub_minute_f', fo,
+                  lambda c: hfmt % (('sub_minute_f', _b(c[0])) + tuple(c[1:5]) + (_fbits(c[5]),)),
+                  lambda c: _show_dt(DateTime(c[1], c[2], c[3], c[4], c[0]).sub_minute(c[5])),
+                  key=lambda c: (c[:5], repr(c[5])))
+
+    # --- round 4: the sibling classes' own serial forms, and every container shape of an array
+    compare_batch(ctx, 'date_to_dict', dcs, lambda c: 'date_to_dict %s %d %d' % (_b(c[0]), c[1], c[2]),
+                  lambda c: show_kv(Date(c[1], c[2], c[0]).to_dict()))
+    ddc = []
+    for c in dcs:
+        kv = [('month', c[1]), ('day', c[2])] + ([('leap_year', 1)] if c[0] else [])
+        rng.shuffle(kv)
+        if rng.random() < 0.25:
+            kv = [x for x in kv if rng.random() < 0.6]
+        ddc.append(kv)
+    compare_batch(ctx, 'date_from_dict', ddc, lambda c: 'date_from_dict ' + ' '.join('%s=%d' % kv for kv in c),
+                  lambda c: _show_d(Date.from_dict({k: (bool(v) if k == 'leap_year' else v) for k, v in c})),
+                  key=lambda c: tuple(c))
+    tcs = sorted(set((c[3], c[4]) for c in cs))
+    tdc = []
+    for h, mi in tcs:
+        kv = [('hour', h), ('minute', mi)]
+        rng.shuffle(kv)
+        if rng.random() < 0.25:
+            kv = [x for x in kv if rng.random() < 0.6]
+        tdc.append(kv)
+    compare_batch(ctx, 'time_from_dict', tdc, lambda c: 'time_from_dict ' + ' '.join('%s=%d' % kv for kv in c),
+                  lambda c: _show_t(Time.from_dict(dict(c))), key=lambda c: tuple(c))
+    compare_batch(ctx, 'time_from_array', tcs, lambda c: 'time_from_array %d %d' % c,
+                  lambda c: _show_t(Time.from_array(_in_shape(rng.choice(_SHAPES), c))))
+    shaped = [(rng.choice(_SHAPES), c) for c in cs]
+    for sh, _ in shaped:
+        ctx.count('shape:' + sh)
+
+    def arr(c):                       # hand-built in the documented layout, not through to_array
+        return [c[1], c[2], c[3], c[4]] + ([1] if c[0] else ([0] if c[4] % 3 == 0 else []))
+
+    compare_batch(ctx, 'from_array', shaped,
+                  lambda sc: 'from_array ' + ' '.join(str(x) for x in arr(sc[1])),
+                  lambda sc: _show_dt(DateTime.from_array(_in_shape(sc[0], arr(sc[1])))),
+                  key=lambda sc: (sc[0],) + tuple(sc[1]))
+    compare_batch(ctx, 'date_from_array', [(rng.choice(_SHAPES), c) for c in dcs],
+                  lambda sc: 'date_from_array %d %d%s' % (sc[1][1], sc[1][2], ' 1' if sc[1][0] else ''),
+                  lambda sc: _show_d(Date.from_array(_in_shape(sc[0], [sc[1][1], sc[1][2]] + ([1] if sc[1][0] else [])))),
+                  key=lambda sc: (sc[0],) + tuple(sc[1]))
+
     # --- histories: one date-time variable, one module instance / one process, step by step
     hs = [_gen_history(rng, rng.randrange(6, 40), wild=True, count=ctx.count)
           for _ in range(ctx.n(500, 8000))]
@@ -918,6 +1231,276 @@ def _ref(leap, moy):
     return datetime(year, 1, 1) + timedelta(minutes=moy)
 
 
+_MON = ('Jan', 'Feb', 'Mar', 'Apr', 'May', 'Jun', 'Jul', 'Aug', 'Sep', 'Oct', 'Nov', 'Dec')
+_SUBS = {}
+
+
+def _subclasses(mod):
+    """Trivial user subclasses of the three classes (dt.py builds results with cls / self.__class__)."""
+    key = id(mod)
+    if key not in _SUBS:
+        _SUBS[key] = tuple(type('Sub' + c.__name__, (c,), {'__slots__': ()})
+                           for c in (mod.DateTime, mod.Date, mod.Time))
+    return _SUBS[key]
+
+
+def _check_siblings(m, leap, sig):
+    """DateTime, its Date and Time parts, the sibling constructors and user subclasses describe the
+    same instant (kind e: an operation changed in one class / one entry point only)."""
+    mod = _real_dt()
+    DateTime, Date, Time = mod.DateTime, mod.Date, mod.Time
+    r = _ref(leap, m)
+    n = _year_minutes(leap)
+    k, md = m // 1440 + 1, m % 1440
+    want = (r.month, r.day, r.hour, r.minute, leap, k, m // 60, m)
+
+    def bad(what, w, g):
+        return {'required': w, 'observed': g, 'sig': dict(sig, what=what)}
+
+    step = 'from_moy'
+    try:
+        d = DateTime.from_moy(m, leap)
+        step = 'date/time'
+        da, t = d.date, d.time
+        if (da.month, da.day, da.leap_year, da.doy) != (r.month, r.day, leap, k) or type(da) is not Date:
+            return bad('date', (r.month, r.day, leap, k), (da.month, da.day, da.leap_year, da.doy))
+        if (t.hour, t.minute, t.mod) != (r.hour, r.minute, md) or type(t) is not Time:
+            return bad('time', (r.hour, r.minute, md), (t.hour, t.minute, t.mod))
+        if abs(d.float_hour - md / 60.0) > 1e-9 or abs(t.float_hour - md / 60.0) > 1e-9:
+            return bad('float_hour', md / 60.0, (d.float_hour, t.float_hour))
+        step = 'sibling constructors'
+        builders = {
+            'constructor': lambda: DateTime(r.month, r.day, r.hour, r.minute, leap),
+            'from_hoy': lambda: DateTime.from_hoy(m / 60.0, leap),
+            'from_doy+from_mod': lambda: DateTime.from_date_and_time(Date.from_doy(k, leap), Time.from_mod(md)),
+            'date+time': lambda: DateTime.from_date_and_time(Date(r.month, r.day, leap), Time(r.hour, r.minute)),
+            'add_from_first_hour': lambda: DateTime.from_first_hour(leap).add_minute(m),
+            'sub_from_last_hour': lambda: DateTime.from_last_hour(leap).sub_minute(n - 60 - m),
+            'add_hour_from_midnight': lambda: DateTime(r.month, r.day, 0, 0, leap).add_hour(md / 60.0)
+            if md % 15 == 0 else d,
+        }
+        for name, f in builders.items():
+            step = name
+            e = f()
+            if _obs(e) != want or e != d or hash(e) != hash(d):
+                return bad(name, want, _obs(e))
+        step = 'first/last hour'
+        fh, lh = DateTime.from_first_hour(leap), DateTime.from_last_hour(leap)
+        if (fh.moy, fh.leap_year, lh.moy, lh.leap_year) != (0, leap, n - 60, leap):
+            return bad('first_last_hour', (0, leap, n - 60, leap), (fh.moy, fh.leap_year, lh.moy, lh.leap_year))
+        step = 'from_doy/from_mod'
+        if Date.from_doy(k, leap) != da or Time.from_mod(md) != t:
+            return bad('parts', (str(da), str(t)), (str(Date.from_doy(k, leap)), str(Time.from_mod(md))))
+        step = 'text'
+        for o in (d, da, t):
+            if not (str(o) == repr(o) == o.ToString()):
+                return bad('str_repr', str(o), (repr(o), o.ToString()))
+        if str(d) != str(da) + ' ' + str(t):
+            return bad('str_parts', str(da) + ' ' + str(t), str(d))
+        for sep in ('_', ' ', '-', '/'):
+            tok = d.to_simple_string(sep).split(sep)
+            e = DateTime.from_date_time_string('%s %s %s:%s' % tuple(tok), leap) if len(tok) == 4 else None
+            if e is None or e != d or e.leap_year != leap:
+                return bad('simple_string', str(d), d.to_simple_string(sep))
+        step = 'subclasses'
+        SDT, SD, ST = _subclasses(mod)
+        s = SDT.from_moy(m, leap)
+        k1 = 1 if m + 1 < n else -1
+        trips = {
+            'from_moy': s, 'constructor': SDT(r.month, r.day, r.hour, r.minute, leap),
+            'from_hoy': SDT.from_hoy(m / 60.0, leap), 'array': SDT.from_array(s.to_array()),
+            'dict': SDT.from_dict(s.to_dict()), 'copy': copy.copy(s), 'deepcopy': copy.deepcopy(s),
+            'text': SDT.from_date_time_string(str(s), leap), 'add_sub': s.add_minute(k1).sub_minute(k1),
+            'add_sub_hour': s.add_hour(k1 / 4.0).sub_hour(k1 / 4.0) if 15 <= m < n - 15 else s,
+            'date+time': SDT.from_date_and_time(SD.from_doy(k, leap), ST.from_mod(md)),
+        }
+        for name, e in trips.items():
+            if _obs(e) != want or e != d:
+                return bad('subclass:' + name, want, _obs(e))
+        sd, st = SD.from_doy(k, leap), ST.from_mod(md)
+        for name, e, ref in (('Date.array', SD.from_array(sd.to_array()), da), ('Date.dict', SD.from_dict(sd.to_dict()), da),
+                             ('Date.copy', copy.copy(sd), da), ('Date.text', SD.from_date_string(str(sd), leap), da),
+                             ('Time.array', ST.from_array(st.to_array()), t), ('Time.dict', ST.from_dict(st.to_dict()), t),
+                             ('Time.copy', copy.copy(st), t), ('Time.text', ST.from_time_string(str(st)), t)):
+            if e != ref or getattr(e, 'leap_year', None) != getattr(ref, 'leap_year', None):
+                return bad('subclass:' + name, str(ref), str(e))
+    except Exception as e:
+        return bad('raises:' + step.split(':')[0], want, 'raises %s: %s' % (type(e).__name__, str(e)[:80]))
+    return None
+
+
+def _canon(x):
+    return json.dumps(x, sort_keys=True, default=str)
+
+
+def _check_alias(m1, l1, m2, l2, sig):
+    """Results of one call are not shared with another call, another object or the caller's later
+    edits; arguments are left as they were and may come in any container / mapping type (kind f)."""
+    import collections
+    mod = _real_dt()
+    x, y = mod.DateTime.from_moy(m1, l1), mod.DateTime.from_moy(m2, l2)
+    sig = dict(sig, leap2=l2)
+
+    def bad(what, cname, w, g):
+        return {'required': w, 'observed': g, 'sig': dict(sig, what=what, cls=cname)}
+
+    for cname, a, b in (('DateTime', x, y), ('Date', x.date, y.date), ('Time', x.time, y.time)):
+        cls = type(a)
+        lp = getattr(a, 'leap_year', None)
+        try:
+            # -- to_dict
+            d1 = a.to_dict()
+            snap = _canon(d1)
+            d2 = b.to_dict()
+            if d1 is d2 or _canon(d1) != snap:
+                return bad('to_dict:shared-between-objects', cname, snap, _canon(d1))
+            want_b = _canon(d2)
+            for key in list(d2):
+                d2[key] = 7
+            d2['leap_year'] = True
+            d2['junk'] = [1]
+            d3 = a.to_dict()
+            if _canon(d3) != snap or _canon(d1) != snap:
+                return bad('to_dict:caller-edit-leaks', cname, snap, _canon(d3))
+            if _canon(b.to_dict()) != want_b:
+                return bad('to_dict:caller-edit-leaks', cname, want_b, _canon(b.to_dict()))
+            d1.clear()
+            e = cls.from_dict(a.to_dict())
+            if e != a or getattr(e, 'leap_year', None) != lp:
+                return bad('to_dict:after-clear', cname, str(a), str(e))
+            # -- from_dict: any mapping type, any key order, extra keys; the argument is left alone
+            base = json.loads(snap)
+            items = list(base.items())
+            maps = {
+                'reversed-insertion': dict(reversed(items)),
+                'rotated-insertion': dict(items[2:] + items[:2]),
+                'ordered-dict': collections.OrderedDict(sorted(items, reverse=True)),
+                'mapping-proxy': types.MappingProxyType(dict(items)),
+                'chain-map': collections.ChainMap({}, dict(items)),
+                'extra-keys': dict([('zzz', 1)] + items + [('year', 1999), ('second', 30)]),
+            }
+            for mname, mp in maps.items():
+                before = _canon(dict(mp))
+                e = cls.from_dict(mp)
+                if e != a or getattr(e, 'leap_year', None) != lp:
+                    return bad('from_dict:' + mname, cname, str(a), str(e))
+                if _canon(dict(mp)) != before:
+                    return bad('from_dict:argument-modified', cname, before, _canon(dict(mp)))
+            # -- to_array / from_array
+            a1 = a.to_array()
+            snap_a = tuple(a1)
+            b1 = b.to_array()
+            want_b1 = tuple(b1)
+            if isinstance(b1, list):
+                b1[:] = [9] * len(b1)
+            if isinstance(a1, list):
+                a1.append(1)
+            if tuple(a.to_array()) != snap_a or tuple(b.to_array()) != want_b1:
+                return bad('to_array:shared', cname, snap_a, tuple(a.to_array()))
+            for shape in _SHAPES:
+                e = cls.from_array(_in_shape(shape, snap_a))
+                if e != a or getattr(e, 'leap_year', None) != lp:
+                    return bad('from_array:' + shape, cname, str(a), str(e))
+            lst = list(snap_a)
+            cls.from_array(lst)
+            if lst != list(snap_a):
+                return bad('from_array:argument-modified', cname, list(snap_a), lst)
+            e = cls.from_array(json.loads(json.dumps(a.to_array())))
+            if e != a or getattr(e, 'leap_year', None) != lp:
+                return bad('from_array:json', cname, str(a), str(e))
+            # -- __reduce_ex__ (what pickle / copy call)
+            r1 = a.__reduce_ex__(2)
+            snap_r = (r1[0], tuple(r1[1]))
+            b.__reduce_ex__(2)
+            copy.copy(b)
+            if (r1[0], tuple(r1[1])) != snap_r:
+                return bad('reduce:shared', cname, str(snap_r), str(r1))
+            e = r1[0](*r1[1])
+            if e != a or type(e) is not cls or getattr(e, 'leap_year', None) != lp:
+                return bad('reduce:rebuild', cname, str(a), str(e))
+            # -- text
+            s1 = str(a)
+            str(b)
+            b.to_dict()
+            if str(a) != s1:
+                return bad('str:changes', cname, s1, str(a))
+        except Exception as e:
+            return bad('raises', cname, str(a), 'raises %s: %s' % (type(e).__name__, str(e)[:80]))
+    # reads of the first object after the second was built and used
+    ox = _obs(x)
+    y.add_minute(0)
+    _obs(y)
+    if _obs(x) != ox or _obs(mod.DateTime.from_moy(m1, l1)) != ox:
+        return bad('reads:second-object', 'DateTime', ox, _obs(x))
+    return None
+
+
+def _check_shape(m, leap, sig):
+    """The same numbers given in the other forms an entry point accepts: whole floats for integers,
+    integers for floats, text with one- and two-digit fields, flags as bool / 0 / 1, defaults omitted,
+    arrays as JSON lists (kind i)."""
+    mod = _real_dt()
+    DateTime, Date, Time = mod.DateTime, mod.Date, mod.Time
+    r = _ref(leap, m)
+    n = _year_minutes(leap)
+    k, md = m // 1440 + 1, m % 1440
+    want = (r.month, r.day, r.hour, r.minute, leap, k, m // 60, m)
+    mon = _MON[r.month - 1]
+
+    def bad(what, w, g):
+        return {'required': w, 'observed': g, 'sig': dict(sig, what=what)}
+
+    forms = [
+        ('from_moy:float', lambda: DateTime.from_moy(float(m), leap)),
+        ('from_hoy:float', lambda: DateTime.from_hoy(m / 60.0, leap)),
+        ('from_doy:float', lambda: DateTime.from_date_and_time(Date.from_doy(float(k), leap), Time(r.hour, r.minute))),
+        ('add_minute:float', lambda: DateTime(1, 1, 0, 0, leap).add_minute(float(m))),
+        ('sub_minute:float', lambda: DateTime(12, 31, 23, 59, leap).sub_minute(float(n - 1 - m))),
+        ('from_mod:float', lambda: DateTime.from_date_and_time(Date(r.month, r.day, leap), Time.from_mod(float(md)))),
+        ('constructor:float', lambda: DateTime(r.month, r.day, float(r.hour), float(r.minute), leap)),
+        ('constructor:float-hour-only', lambda: DateTime(r.month, r.day, md / 60.0, 0, leap)),
+        ('time:float-hour-only', lambda: DateTime.from_date_and_time(Date(r.month, r.day, leap), Time(md / 60.0))),
+        ('constructor:keywords', lambda: DateTime(minute=r.minute, hour=r.hour, leap_year=leap, day=r.day, month=r.month)),
+        ('leap-flag:int', lambda: DateTime(r.month, r.day, r.hour, r.minute, int(leap))),
+        ('from_moy:leap-flag-int', lambda: DateTime.from_moy(m, int(leap))),
+        ('from_array:leap-flag-bool', lambda: DateTime.from_array([r.month, r.day, r.hour, r.minute, leap])),
+        ('from_array:leap-flag-int', lambda: DateTime.from_array((r.month, r.day, r.hour, r.minute, int(leap)))),
+        ('from_dict:leap-flag-int', lambda: DateTime.from_dict({'leap_year': int(leap), 'minute': r.minute,
+                                                               'hour': r.hour, 'day': r.day, 'month': r.month})),
+        ('from_dict:defaults-omitted', lambda: DateTime.from_dict(dict(
+            [(key, v) for key, v, dflt in (('minute', r.minute, 0), ('month', r.month, 1), ('leap_year', leap, False),
+                                          ('hour', r.hour, 0), ('day', r.day, 1)) if v != dflt]))),
+    ]
+    forms.append(('from_dict:parts-defaults-omitted', lambda: DateTime.from_date_and_time(
+        Date.from_dict(dict([(key, v) for key, v, dflt in (('leap_year', leap, False), ('day', r.day, 1),
+                                                           ('month', r.month, 1)) if v != dflt])),
+        Time.from_dict(dict([(key, v) for key, v in (('minute', r.minute), ('hour', r.hour)) if v != 0])))))
+    forms.append(('from_dict:parts-flag-int', lambda: DateTime.from_date_and_time(
+        Date.from_dict({'day': r.day, 'leap_year': int(leap), 'month': r.month, 'type': 'Date'}),
+        Time.from_dict({'type': 'Time', 'minute': r.minute, 'hour': r.hour}))))
+    forms.append(('from_array:parts', lambda: DateTime.from_date_and_time(
+        Date.from_array([r.month, r.day] + ([True] if leap else [])), Time.from_array([r.hour, r.minute]))))
+    if m % 60 == 0:
+        forms.append(('from_hoy:int', lambda: DateTime.from_hoy(m // 60, leap)))
+        forms.append(('add_hour:int', lambda: DateTime(1, 1, 0, 0, leap).add_hour(m // 60)))
+    for fmt in ('%02d %s %02d:%02d', '%d %s %d:%d', '%d %s %02d:%02d', '%02d %s %d:%02d', '%02d %s %02d:%d'):
+        txt = fmt % (r.day, mon, r.hour, r.minute)
+        forms.append(('text:' + fmt, lambda txt=txt: DateTime.from_date_time_string(txt, leap)))
+    for fmt in ('%02d %s', '%d %s'):
+        for tf in ('%02d:%02d', '%d:%d', '%02d:%d', '%d:%02d'):
+            forms.append(('text-parts:%s+%s' % (fmt, tf), lambda fmt=fmt, tf=tf: DateTime.from_date_and_time(
+                Date.from_date_string(fmt % (r.day, mon), leap), Time.from_time_string(tf % (r.hour, r.minute)))))
+    for name, f in forms:
+        try:
+            e = f()
+            got = _obs(e)
+        except Exception as ex:
+            got = 'raises %s: %s' % (type(ex).__name__, str(ex)[:80])
+        if got != want:
+            return bad(name, want, got)
+    return None
+
+
 def check_case(op, inp):
     from ladybug.dt import DateTime, Date, Time
     leap = bool(inp.get('leap', False))
@@ -956,6 +1539,12 @@ def check_case(op, inp):
                 r = DateTime(v[0], v[1], v[2], v[3], leap)
             elif what == 'date':
                 r = Date(v[0], v[1], leap)
+            elif what == 'hoy':
+                r = DateTime.from_hoy(v, leap)
+            elif what == 'add':            # an offset that leaves the year is refused, it does not wrap
+                r = DateTime.from_moy(v[0], leap).add_minute(v[1])
+            elif what == 'add_hour':
+                r = DateTime.from_moy(v[0], leap).add_hour(v[1])
             else:
                 r = Date.from_doy(v, leap)
         except ValueError:
@@ -972,21 +1561,37 @@ def check_case(op, inp):
             return {'required': 'order of %d,%d' % (a, b), 'observed': '%s vs %s' % (da, db), 'sig': sig}
         return None
     if op == 'add_sub':
-        d0 = DateTime.from_moy(inp['moy'], leap)
+        # "adding and then subtracting ANY number of minutes or hours that stays inside the year returns
+        # the starting date-time": whole and fractional offsets, either operation first
+        m0 = inp['moy']
+        d0 = DateTime.from_moy(m0, leap)
         k = inp['k']
-        if inp.get('unit') == 'hour':
-            fwd = d0.add_hour(k)
-            k60 = Fraction(k) * 60
-            if k60.denominator == 1 and fwd.moy != inp['moy'] + int(k60):
-                return {'required': inp['moy'] + int(k60), 'observed': fwd.moy, 'sig': dict(sig, unit='hour')}
-            back = fwd.sub_hour(k)
+        unit = inp.get('unit', 'minute')
+        first = inp.get('first', 'add')
+        exact = Fraction(k) * (60 if unit == 'hour' else 1)          # offset in minutes, exact
+        target = m0 + exact if first == 'add' else m0 - exact
+        sig = dict(sig, unit=unit, first=first, whole=exact.denominator == 1)
+        if not 0 <= target <= _year_minutes(leap) - 1:
+            return None                                              # leaves the year: not judged
+        if unit == 'hour':
+            ops = (d0.add_hour, 'sub_hour') if first == 'add' else (d0.sub_hour, 'add_hour')
         else:
-            fwd = d0.add_minute(k)
-            if fwd.moy != inp['moy'] + k:
-                return {'required': inp['moy'] + k, 'observed': fwd.moy, 'sig': dict(sig, unit='minute')}
-            back = fwd.sub_minute(k)
-        if back != d0 or back.leap_year != leap:
-            return {'required': str(d0), 'observed': str(back), 'sig': dict(sig, unit=inp.get('unit', 'minute'))}
+            ops = (d0.add_minute, 'sub_minute') if first == 'add' else (d0.sub_minute, 'add_minute')
+        try:
+            fwd = ops[0](k)
+            if exact.denominator == 1:
+                if fwd.moy != target:
+                    return {'required': int(target), 'observed': fwd.moy, 'sig': dict(sig, what='sum')}
+            elif not abs(fwd.moy - target) < 1:
+                return {'required': 'within one minute of %s' % float(target), 'observed': fwd.moy,
+                        'sig': dict(sig, what='sum')}
+            back = getattr(fwd, ops[1])(k)
+        except Exception as e:
+            return {'required': str(d0), 'observed': 'raises %s: %s' % (type(e).__name__, str(e)[:60]),
+                    'sig': dict(sig, what='raises')}
+        if back != d0 or back.leap_year != leap or back.moy != m0:
+            return {'required': '%s (minute %d)' % (d0, m0), 'observed': '%s (minute %d) via %s (minute %d)' % (
+                back, back.moy, fwd, fwd.moy), 'sig': dict(sig, what='inverse')}
         return None
     if op == 'serial':
         d = DateTime.from_moy(inp['moy'], leap)
@@ -1060,6 +1665,51 @@ def check_case(op, inp):
         if got != want:
             return {'required': want, 'observed': got, 'sig': dict(sig, what='fields')}
         return None
+    if op == 'ctor_float':
+        # fractional hour / minute arguments of the constructors: the nearest minute of the day
+        cls = inp.get('cls', 'DateTime')
+        x = Fraction(inp['hour']) * 60 + Fraction(inp['minute'])
+        n = (x + Fraction(1, 2)).__floor__()
+        cands = {n}
+        if abs(x - n) > Fraction(1, 2) - Fraction(1, 10 ** 6):
+            cands = {x.__floor__(), x.__floor__() + 1}
+        if cands == {1440}:
+            # rounds up to midnight of the NEXT day: refused (as the code does) or that next day, never
+            # a wrap to 00:00 of the same day
+            try:
+                o = Time(inp['hour'], inp['minute']) if cls == 'Time' else \
+                    DateTime(inp['mo'], inp['da'], inp['hour'], inp['minute'], leap)
+            except ValueError:
+                return None
+            nxt = date(2016 if leap else 2017, inp.get('mo', 1), inp.get('da', 1)) + timedelta(days=1)
+            if cls != 'Time' and nxt.year == (2016 if leap else 2017) and \
+                    (o.month, o.day, o.hour, o.minute, o.leap_year) == (nxt.month, nxt.day, 0, 0, leap):
+                return None
+            return {'required': 'ValueError or 00:00 of the next day', 'observed': str(o),
+                    'sig': dict(sig, cls=cls, what='wraps-past-midnight')}
+        if not all(0 <= c <= 1439 for c in cands):
+            return None                                   # a tie at the edge of the day: not judged
+        sig = dict(sig, cls=cls, carry=bool(n % 60 == 0 and x < n))
+        try:
+            if cls == 'Time':
+                t = Time(inp['hour'], inp['minute'])
+                got, wants = (t.hour, t.minute), [(c // 60, c % 60) for c in sorted(cands)]
+            else:
+                d = DateTime(inp['mo'], inp['da'], inp['hour'], inp['minute'], leap)
+                got = (d.month, d.day, d.hour, d.minute, d.leap_year)
+                wants = [(inp['mo'], inp['da'], c // 60, c % 60, leap) for c in sorted(cands)]
+        except Exception as e:
+            return {'required': 'minute %d of the day' % n, 'observed': 'raises %s: %s' % (
+                type(e).__name__, str(e)[:60]), 'sig': dict(sig, what='raises')}
+        if got not in wants:
+            return {'required': wants, 'observed': got, 'sig': dict(sig, what='fields')}
+        return None
+    if op == 'siblings':
+        return _check_siblings(inp['moy'], leap, sig)
+    if op == 'alias':
+        return _check_alias(inp['moy'], leap, inp['moy2'], bool(inp['leap2']), sig)
+    if op == 'shape':
+        return _check_shape(inp['moy'], leap, sig)
     if op == 'history':
         return _history_result(inp['ops'])
     if op == 'process_order':
@@ -1098,9 +1748,15 @@ def _hoy_float_cases(ctx, leap, count):
         elif r < 0.75:      # minute grid written with few decimals (as people type it)
             h = float('%.4f' % (m / 60.0))
             ctx.count('hoy:4-decimals')
-        elif r < 0.80:
-            h = rng.choice([0.0, -0.0, 0, 1e-12, 1e-9, 0.008, 1 / 120.0 - 1e-9])
+        elif r < 0.78:
+            h = rng.choice([0.0, -0.0, 0, 1e-12, 1e-9, 0.008, 1 / 120.0 - 1e-9, 5e-324, 1e-300])
             ctx.count('hoy:zero')
+        elif r < 0.80:      # the far end of the year reached by accumulated float steps of 1/timestep
+            ts = rng.choice(_TIMESTEPS)
+            acc = _accumulated_hours(ts, leap)
+            h = rng.choice(acc)
+            ctx.count('hoy:accumulated-steps-year-end')
+            ctx.count('hoy:timestep-%d' % ts)
         elif r < 0.85:
             h = m // 60                     # an int, not a float
             ctx.count('hoy:int')
@@ -1108,6 +1764,30 @@ def _hoy_float_cases(ctx, leap, count):
             h = rng.random() * (n / 60.0)
             ctx.count('hoy:uniform')
         yield 'hoy_float', {'leap': leap, 'hoy': h}
+
+
+_TIMESTEPS = (1, 2, 3, 4, 5, 6, 10, 12, 15, 20, 30, 60)
+_ACC = {}
+
+
+def _accumulated_hours(ts, leap):
+    """The last hours of the year as a caller gets them by adding 1/ts again and again (float
+    steps accumulate their rounding), plus the same instants formed as n/60 - j/ts."""
+    key = (ts, leap)
+    if key not in _ACC:
+        step = 1.0 / ts
+        h = 0.0
+        total = (8784 if leap else 8760) * ts
+        tail = []
+        for i in range(total - 1):
+            h += step
+            if i >= total - 6:
+                tail.append(h)
+        n = _year_minutes(leap)
+        tail += [n / 60.0 - j / float(ts) for j in (1, 2, 3)]
+        tail += [(total - j) * step for j in (1, 2, 3)]
+        _ACC[key] = tail
+    return _ACC[key]
 
 
 _BAD_DATES = [(2, 30), (2, 31), (4, 31), (6, 31), (9, 31), (11, 31), (13, 1), (0, 1), (1, 0), (1, 32)]
@@ -1176,6 +1856,52 @@ def _oracle_cases(ctx):
             sm += [(31 + 28) * 1440 + x for x in (0, 1, 180, 1439)]   # 29 Feb
         for m in sm:
             yield 'serial', {'leap': leap, 'moy': m}
+        # ---- round 4
+        for v in (n / 60.0, n / 60.0 + 0.01, n // 60, float(8784 if not leap else 8800), 1e7, 1e16):
+            yield 'reject', {'leap': leap, 'what': 'hoy', 'value': v}
+        for _ in range(40):
+            m = rng.choice(bm)
+            yield 'reject', {'leap': leap, 'what': 'add', 'value': [m, rng.choice([n - m, n - m + 1, n - m + 1439,
+                                                                                  n - m + 1440, 2 * n, 10 ** 9])]}
+            m -= m % 60
+            yield 'reject', {'leap': leap, 'what': 'add_hour', 'value': [m, float((n - m) // 60 + rng.choice([0, 1, 24]))]}
+        for _ in range(3000 if not big else 30000):       # offsets that are not whole minutes / hours
+            m = rng.choice(bm) if rng.random() < 0.4 else rng.randrange(n)
+            first = rng.choice(['add', 'sub'])
+            if rng.random() < 0.5:
+                k = _frac_offsets(rng, m, n)
+                ctx.count('add_sub:fractional-minutes')
+                yield 'add_sub', {'leap': leap, 'moy': m, 'k': k, 'first': first}
+            else:
+                k = rng.choice([0.01, 0.1, 1.51, 2.05, 1 / 3.0, 0.004, 1e-9, 23.99, 100.3, 0.7, 7.77,
+                                _frac_offsets(rng, m, n) / 60.0]) * rng.choice([1, -1])
+                mid = m + Fraction(k) * 60 * (1 if first == 'add' else -1)
+                if not 0 <= mid <= n - 1:
+                    k = -k
+                ctx.count('add_sub:fractional-hours')
+                yield 'add_sub', {'leap': leap, 'moy': m, 'k': k, 'unit': 'hour', 'first': first}
+            if rng.random() < 0.3:                        # whole offsets, subtraction first
+                kk = rng.randrange(-(n - 1 - m), m + 1)
+                ctx.count('add_sub:sub-first')
+                yield 'add_sub', {'leap': leap, 'moy': m, 'k': kk, 'first': 'sub'}
+        for h, mi in _frac_hm_cases(rng, 1500 if not big else 20000, ctx.count):
+            r0 = _ref(leap, rng.choice(bm) if rng.random() < 0.5 else rng.randrange(n))
+            yield 'ctor_float', {'leap': leap, 'mo': r0.month, 'da': r0.day, 'hour': h, 'minute': mi,
+                                 'cls': 'Time' if rng.random() < 0.3 else 'DateTime'}
+        extra = [0, 1, 59, 60, n - 60, n - 1] + ([(31 + 28) * 1440 + x for x in (0, 735, 1439)] if leap else [])
+        for m in extra + [rng.choice(bm) for _ in range(120 if not big else 2000)] + \
+                [rng.randrange(n) for _ in range(250 if not big else 12000)]:
+            yield 'siblings', {'leap': leap, 'moy': m}
+        for m in extra + [rng.choice(bm) for _ in range(80 if not big else 1500)] + \
+                [rng.randrange(n) for _ in range(200 if not big else 8000)]:
+            yield 'shape', {'leap': leap, 'moy': m}
+        for _ in range(250 if not big else 6000):
+            l2 = rng.random() < 0.5
+            n2 = _year_minutes(l2)
+            m1 = rng.choice(extra + bm) if rng.random() < 0.5 else rng.randrange(n)
+            m2 = rng.choice([0, n2 - 1, (31 + 28) * 1440 + 735 if l2 else 84960, rng.randrange(n2)])
+            ctx.count('alias:%s-then-%s' % ('leap' if leap else 'normal', 'leap' if l2 else 'normal'))
+            yield 'alias', {'leap': leap, 'moy': m1, 'leap2': l2, 'moy2': m2}
 
 
 def _oracle_histories(ctx, count):
@@ -1201,6 +1927,65 @@ def _oracle_histories(ctx, count):
             ctx.fail('history', {'ops': small}, res2['required'],
                      'step %d %r: %s' % (res2.get('at', -1), small[res2.get('at', -1)], res2['observed']),
                      res2['sig'])
+
+
+def _branch_pool(ctx):
+    """A small slice of the stream that is meant to reach every branch of dt.py (traced)."""
+    rng = ctx.rng
+    pool = []
+    for leap in (False, True):
+        n = _year_minutes(leap)
+        days = 366 if leap else 365
+        bm = [m for m in _boundary_moys(leap) if 0 <= m < n]
+        pool += [('doy_roundtrip', {'leap': leap, 'doy': d}) for d in range(1, days + 1)]
+        pool += [('reject', {'leap': leap, 'what': 'doy', 'value': v}) for v in (-1, 0, days + 1)]
+        pool += [('reject', {'leap': leap, 'what': 'moy', 'value': n})]
+        pool += [('reject', {'leap': leap, 'what': 'make', 'value': [2, 30, 0, 0]}),
+                 ('reject', {'leap': leap, 'what': 'date', 'value': [2, 30]}),
+                 ('reject', {'leap': leap, 'what': 'hoy', 'value': 9000.0})]
+        pool += [('moy_roundtrip', {'leap': leap, 'moy': m}) for m in bm[::3]]
+        pool += [('serial', {'leap': leap, 'moy': m}) for m in (0, 84960, n - 1)]
+        pool += [('siblings', {'leap': leap, 'moy': m}) for m in (0, 84960 + 735, n - 1)]
+        pool += [('shape', {'leap': leap, 'moy': m}) for m in (60, 84960 + 735)]
+        pool += [('alias', {'leap': leap, 'moy': 84960, 'leap2': not leap, 'moy2': 5})]
+        pool += [('ctor_float', {'leap': leap, 'mo': 6, 'da': 21, 'hour': h, 'minute': mi, 'cls': c})
+                 for h, mi in ((5.0, 59.7), (5.9999, 0.0), (12.25, 0.0), (23.0, 59.9)) for c in ('DateTime', 'Time')]
+        pool += [('add_sub', {'leap': leap, 'moy': 1000, 'k': 90.5}),
+                 ('add_sub', {'leap': leap, 'moy': 1000, 'k': 1.51, 'unit': 'hour', 'first': 'sub'})]
+        pool += [('hoy_float', {'leap': leap, 'hoy': 8759.99})]
+    pool.append(('history', {'ops': [['fm', 1, 86399], ['sl', 0], ['md', 1440], ['md', 7], ['via', 'text'],
+                                     ['mk', 0, 6, 15, 24, 0], ['fd', 1, 60], ['rd', 3]]}))
+    # name the branch each traced case is meant to take (computed from the stdlib calendar)
+    for op, inp in pool:
+        leap = bool(inp.get('leap'))
+        days = 366 if leap else 365
+        if op == 'doy_roundtrip':
+            r = date(2016 if leap else 2017, 1, 1) + timedelta(days=inp['doy'] - 1)
+            last = r.day == _month_len(leap, r.month)
+            ctx.count('branch:from_doy:month-end(day==0)' if last and r.month < 12 else 'branch:from_doy:plain')
+            ctx.count('branch:from_doy:table-%s' % ('leap' if leap else 'normal'))
+        elif op == 'reject' and inp['what'] == 'doy':
+            v = inp['value']
+            ctx.count('branch:from_doy:negative-day' if v < 0 else 'branch:from_doy:month-0(table[-1])'
+                      if v == 0 else 'branch:from_doy:fall-through(UnboundLocalError)')
+        elif op == 'reject' and inp['what'] in ('moy', 'hoy'):
+            ctx.count('branch:from_moy:fall-through(UnboundLocalError)')
+        elif op == 'reject':
+            ctx.count('branch:__new__:ValueError-reraised:' + inp['what'])
+        elif op == 'moy_roundtrip':
+            ctx.count('branch:from_moy:break-at-month-%d' % _ref(leap, inp['moy']).month)
+            ctx.count('branch:from_moy:table-%s' % ('leap' if leap else 'normal'))
+        elif op == 'ctor_float':
+            x = Fraction(inp['hour']) * 60 + Fraction(inp['minute'])
+            ctx.count('branch:calc_hm:minute==60(carry)' if x % 60 >= Fraction(119, 2) else 'branch:calc_hm:else')
+        elif op in ('serial', 'alias', 'siblings'):
+            for what in ('to_array', 'to_dict', 'from_date_and_time'):
+                ctx.count('branch:%s:%s' % (what, 'leap' if leap else 'normal'))
+            ctx.count('branch:from_dict:all-keys-present')
+        elif op == 'shape':
+            ctx.count('branch:from_dict:keys-absent(defaults)')
+    ctx.count('branch:strptime-AttributeError-fallback:unreachable-on-CPython3', 0)
+    return pool
 
 
 def _order_pool(ctx):
@@ -1231,6 +2016,14 @@ def _order_pool(ctx):
             pool.append(('add_sub', {'leap': leap, 'moy': m, 'k': rng.randrange(-m, n - m)}))
             pool.append(('order', {'leap': leap, 'a': m, 'b': rng.choice(bm)}))
         pool += [('serial', {'leap': leap, 'moy': rng.choice(bm)}) for _ in range(25 * k)]
+        for _ in range(40 * k):
+            m = rng.choice(bm) if rng.random() < 0.5 else rng.randrange(n)
+            l2 = rng.random() < 0.5
+            pool.append(('alias', {'leap': leap, 'moy': m, 'leap2': l2, 'moy2': rng.randrange(_year_minutes(l2))}))
+            pool.append(('siblings', {'leap': leap, 'moy': m}))
+            pool.append(('shape', {'leap': leap, 'moy': rng.choice(bm)}))
+            pool.append(('add_sub', {'leap': leap, 'moy': m, 'k': _frac_offsets(rng, m, n),
+                                     'first': rng.choice(['add', 'sub'])}))
     for _ in range(300 * k):
         pool.append(('history', {'ops': _gen_history(rng, rng.randrange(3, 20))}))
     return pool
@@ -1257,7 +2050,10 @@ def _twin_cases(op, inp):
                 out.append(('doy_roundtrip', {'leap': not leap, 'doy': k}))
     twin = dict(inp)
     twin['leap'] = not leap
-    out.append((op, twin))
+    if all(not isinstance(inp.get(key), int) or 0 <= inp[key] < _year_minutes(not leap) for key in ('moy', 'a', 'b')) \
+            and not (isinstance(inp.get('doy'), int) and inp['doy'] > 365) \
+            and not (op == 'ctor_float' and (inp.get('mo'), inp.get('da')) == (2, 29)):
+        out.append((op, twin))
     return out
 
 
@@ -1312,11 +2108,12 @@ def oracle(ctx):
     run_oracle_cases(ctx, _oracle_cases(ctx), checked)
     if ctx.failures:
         _confirm_in_fresh_process(ctx, recent, ctx.rng)
+    _branch_coverage(ctx, _branch_pool(ctx))
     _oracle_histories(ctx, 1500 if (ctx.quick and not ctx.searching) else 12000)
     _process_orders(ctx, _order_pool(ctx))
     ctx.failures.sort(key=lambda f: bool(f.get('unconfirmed')))      # replayable failures first
 
-LEVEL_TEXT = ('Machine-checked Lean 4 theorems (32) over an executable model of dt.py: from_moy/moy and '
+LEVEL_TEXT = ('Machine-checked Lean 4 theorems (42) over an executable model of dt.py: from_moy/moy and '
               'from_doy/doy are mutually inverse bijections for every minute/day of normal and leap years, '
               'out-of-year inputs are rejected, ordering equals ordering of moy, add/sub offsets invert, '
               'array/dict/pickle/text forms round-trip incl. 29 Feb. The month tables used by the model are '
@@ -1325,7 +2122,11 @@ LEVEL_TEXT = ('Machine-checked Lean 4 theorems (32) over an executable model of 
               'Histories: for every op list on one date-time variable the state is the fresh object of its '
               'public state, refused calls change nothing, reads are pure, index ops follow integer arithmetic '
               '(C08_history_*); the real classes are compared with that state machine step by step, in new '
-              'module instances and in fresh interpreters with different case orders.')
+              'module instances and in fresh interpreters with different case orders. Round 4: add/sub are '
+              'inverse for every real offset (truncation is odd), both branches of the float hour '
+              'normalisation, the branches of from_doy / from_moy, and the agreement of the DateTime / Date / '
+              'Time siblings are theorems; argument container types, aliasing of results and subclasses are '
+              'compared on the real classes.')
 LEVEL_NOTE = ('Trusted: Lean kernel; axioms propext/Classical.choice/Quot.sound only; the table extractor; '
               'the correspondence run (agreement on generated inputs only); CPython datetime as the calendar '
               'reference; float hour normalisation modelled as exact carry (compared exhaustively); '
